@@ -103,6 +103,32 @@ def load_known():
         return json.load(f)
 
 
+def _normalisation_counts(ctx):
+    """per analysed module: how many sites each exact source-to-source normalisation of sa/index.py (and, in the second view,
+    the helper inliner) rewrote -- what the rules were actually shown"""
+    try:
+        from sa.inline import _PROP_MODULES
+        mods = _PROP_MODULES.get(ctx.prop, set())
+    except Exception:
+        mods = set()
+    out = {}
+    fields = ('inlined_constants', 'unrolled_table_loops', 'expanded_method_wrappers', 'split_parallel_assignments', 'expanded_closing',
+              'hoisted_walrus', 'inlined_method_aliases', 'inlined_attribute_aliases', 'split_conditional_returns',
+              'spliced_star_tuples', 'inlined_helper_calls')
+    for name, m in sorted(getattr(ctx.program, 'modules', {}).items()):
+        if mods and name not in mods:
+            continue
+        d = {}
+        for f in fields:
+            v = getattr(m, f, 0)
+            v = len(v) if isinstance(v, (dict, list, set)) else v
+            if v:
+                d[f] = v
+        if d:
+            out[name] = d
+    return out
+
+
 def finish(ctx, spec, out=print):
     """Print the verdict, write evidence and replay files; return exit code."""
     prop = ctx.prop
@@ -181,6 +207,8 @@ def finish(ctx, spec, out=print):
             'inline_depth': 6,
             'known_findings_matched': [o.key for o in old],
             'info': ctx.infos[:60],
+            'view_notes': ctx.notes[:10],
+            'normalisations': _normalisation_counts(ctx),
             **ctx.extra,
         },
         'assumptions': spec.get('assumptions', []),
